@@ -1521,6 +1521,9 @@ fn main() {
 	// ---- (vii) length / integer primitives + boundary-size collections ---------------------------------------------
 	if std::env::var("C12_ONLY").is_err() { ser_prims(&mut st, &mut ctx); }
 	if std::env::var("C12_ONLY").is_err() {
+		if let Err(p) = guarded(AssertUnwindSafe(|| manual_broadcast_probe(&mut st, &mut ctx))) { ctx.fail(format!("manual-broadcast probe panicked: {}", p.chars().take(300).collect::<String>())); }
+	}
+	if std::env::var("C12_ONLY").is_err() {
 		let (fails, stats) = sweeper_rt::run(args.seed, if args.thorough { 400 } else { 40 });
 		for f in fails.into_iter().take(3) { ctx.fail(f); }
 		for (k, v) in stats { *ctx.stats.entry(k).or_insert(0) += v; }
@@ -1643,6 +1646,51 @@ fn main() {
 	rec.notes.insert("not_covered".into(), "OutputSweeper: round trip + behaviour of the re-read copy are checked on StaticOutput descriptors only (section viii; the other descriptor kinds need channel keys) and only at the points where the sweeper persists (track / sweep: chain updates are persisted lazily by design); ChannelManager malformed-stream mutations (each needs a full node reload); the behavioural comparison original vs reloaded manager covers the scripted rare-state scenarios (payment events and end state), not the random schedules (there the reloaded node continues under the engine's own oracles); reloads always hand over the LATEST monitors (stale-monitor restarts are C10's subject), so in-flight updates / blocked completion actions / pending claims are written but resolved by the read; retry_strategy / attempts of a Retryable payment and timer_ticks of a claimable HTLC are declared non-persistent and masked".into());
 	rec.notes.insert("rare_states".into(), "scripts: {underpaid, overforwarded} x {claim, fail, blocks}, mpp2-underpaid-claim, mpp2-partial-timeout, mpp2-one-part-failed, holding-cell, async-persist-claim, async-persist-mpp2-underpaid, gossip-status (disable / enable staging, 12 extra ticks at the cut node in both runs because the staged tick counters are documented as not persisted); cut points = every effective act / micro-step (quick: all within two steps of a non-micro act + every third other one, the node(s) the neighbouring acts concern; thorough: all, every node); states written are listed in states_reached as rare:written:*".into());
 	rec.finish();
+}
+
+// ---------------------------------------------------------------------------------------------------
+// (ix) ChannelMonitor rare-state fields: a MANUALLY BROADCAST channel (`unsafe_manual_funding_transaction_generated`: the monitor is
+// created with is_manual_broadcast = true and funding_seen_onchain = false).  Every monitor / manager round-trip oracle of
+// check_all + the deep manager dump run (a) right after funding_signed, (b) after a force-close while the funding transaction has
+// not been seen on chain (the holder commitment must NOT be broadcast yet), (c) after the funding transaction confirmed.
+// ---------------------------------------------------------------------------------------------------
+fn manual_broadcast_probe(st: &mut St, ctx: &mut Ctx) {
+	use lightning::ln::msgs::{BaseMessageHandler, ChannelMessageHandler, MessageSendEvent};
+	let net = Net::new(2, vec![Some(test_default_channel_config()), Some(test_default_channel_config())]);
+	let (a, b) = (net.ids[0], net.ids[1]);
+	{
+		let nodes = &net.nodes;
+		nodes[0].node.create_channel(b, 100_000, 0, 42, None, None).unwrap();
+		let open = lightning::get_event_msg!(nodes[0], MessageSendEvent::SendOpenChannel, b);
+		handle_and_accept_open_channel(&nodes[1], a, &open);
+		let accept = lightning::get_event_msg!(nodes[1], MessageSendEvent::SendAcceptChannel, a);
+		nodes[0].node.handle_accept_channel(b, &accept);
+		let (temp, tx, outpoint) = create_funding_transaction(&nodes[0], &b, 100_000, 42);
+		nodes[0].node.unsafe_manual_funding_transaction_generated(temp, b, outpoint).unwrap();
+		let fc = lightning::get_event_msg!(nodes[0], MessageSendEvent::SendFundingCreated, b);
+		nodes[1].node.handle_funding_created(a, &fc);
+		let fs = lightning::get_event_msg!(nodes[1], MessageSendEvent::SendFundingSigned, a);
+		nodes[0].node.handle_funding_signed(b, &fs);
+		let _ = nodes[0].node.get_and_clear_pending_msg_events();
+		let _ = nodes[1].node.get_and_clear_pending_msg_events();
+		check_all(&net, st, ctx, "manual-broadcast channel: funding_signed handled, funding transaction not broadcast");
+		shadow_check(&net, 0, st, ctx, "manual-broadcast channel: funding_signed handled");
+		st.mon_states.insert("monitor:manual-broadcast:funding-not-seen".into());
+		let cid = nodes[0].node.list_channels().first().map(|c| c.channel_id);
+		if let Some(cid) = cid {
+			let before = nodes[0].tx_broadcaster.txn_broadcasted.lock().unwrap().len();
+			let _ = nodes[0].node.force_close_broadcasting_latest_txn(&cid, &b, "manual broadcast probe".to_string());
+			let _ = nodes[0].node.get_and_clear_pending_msg_events();
+			check_all(&net, st, ctx, "manual-broadcast channel: force-closed before its funding transaction was seen on chain");
+			let after = nodes[0].tx_broadcaster.txn_broadcasted.lock().unwrap().len();
+			if after != before { ctx.fail(format!("manual-broadcast channel: {} transaction(s) broadcast by the force-close although the funding transaction was never seen on chain", after - before)); }
+			st.mon_states.insert("monitor:manual-broadcast:closed-before-funding-seen".into());
+			mine_transaction(&nodes[0], &tx);
+			check_all(&net, st, ctx, "manual-broadcast channel: funding transaction confirmed after the force-close");
+			st.mon_states.insert("monitor:manual-broadcast:funding-seen-after-close".into());
+		}
+	}
+	std::mem::forget(net);
 }
 
 // ---------------------------------------------------------------------------------------------------
